@@ -367,8 +367,10 @@ def is_optional(
 ) -> bool:
     if resolved_type_params is None:
         resolved_type_params = {}
-    while is_type_alias_type(typ):
-        typ = typ.__value__
+    if is_hashable(typ):
+        # a type variable of a generic class specialised with Optional[...]
+        typ = resolved_type_params.get(typ, typ)
+    typ = _strip_alias_and_final(typ)
     if is_annotated(typ):
         typ = get_type_origin(typ)
     if not is_union(typ):
@@ -382,10 +384,20 @@ def is_optional(
     return False
 
 
+def _strip_alias_and_final(typ: Type) -> Type:
+    # `type X = ...` and Final[...] say nothing about nullability themselves
+    while True:
+        if is_type_alias_type(typ):
+            typ = typ.__value__
+        elif is_final(typ) and get_args(typ):
+            typ = get_args(typ)[0]
+        else:
+            return typ
+
+
 def is_union_with_none(typ: Type) -> bool:
     # e.g. Union[int, str, None], which is not Optional[...] but nullable
-    while is_type_alias_type(typ):
-        typ = typ.__value__
+    typ = _strip_alias_and_final(typ)
     if is_annotated(typ):
         typ = get_type_origin(typ)
     return is_union(typ) and NoneType in get_args(typ)
